@@ -67,3 +67,4 @@ package upstream
 //@   ensures [keys]    forall k any :: k != box("proxyTarget") ==> c.kv[k] == old(c.kv[k]) && c.has[k] == old(c.has[k])
 //@   ensures [resp]    c.rh == old(c.rh) && c.rh != nil && c.rh != c.Request.Header
 //@   ensures [error]   typeis(err, "*hes.Error") ==> unbox(err, "*hes.Error") != nil
+//@   ensures [body]    c.BodyBuffer != nil ==> c.BodyBuffer.open == 0
